@@ -471,4 +471,13 @@ theorem obs_split {w : List Ev} {l1 l2 : List Ev} {e : Ev} (h : obs w = l1 ++ e 
   obtain ⟨x1, x2, rfl, -, -, hx2⟩ := List.filter_eq_cons_iff.1 hu2
   exact ⟨u1 ++ x1, x2, by simp only [List.append_assoc], hx2⟩
 
+theorem find_congr_mem {α} (p q : α → Bool) : ∀ (l : List α), (∀ x ∈ l, p x = q x) → l.find? p = l.find? q := by
+  intro l
+  induction l with
+  | nil => intro _; rfl
+  | cons x xs ih =>
+    intro h
+    simp only [List.find?_cons, h x (List.mem_cons_self)]
+    rw [ih (fun y hy => h y (List.mem_cons_of_mem _ hy))]
+
 end C05L
